@@ -191,6 +191,41 @@ pub fn c18_cli_shell_2w21() {
     shell_case(2, 2, 1);
 }
 
+/// Concrete words with whitespace, an empty word and a quote (3 words): the command string is the
+/// words joined by single spaces, nothing quoted or dropped. Concrete bytes keep this cheap even when
+/// a change adds per-character branches (where the symbolic-byte harnesses above run out of budget);
+/// the wrap mode stays symbolic.
+#[kani::proof]
+#[kani::stub(stdpanic::catch_unwind, crate::util::catch_unwind_stub)]
+#[kani::stub(miette::eyreish::capture_handler, crate::util::capture_handler_stub)]
+#[kani::unwind(12)]
+pub fn c18_cli_shell_concrete_words() {
+    let wrap = any_wrap();
+    let mut program = Vec::with_capacity(3);
+    program.push(String::from("a b"));
+    program.push(String::new());
+    program.push(String::from("c'd"));
+    let mut args = baseline_args(program);
+    args.command.wrap_process = wrap;
+    args.command.shell = Some(String::from("sh"));
+    let r = interpret_command_args(&args);
+    assert!(r.is_ok(), "C18: shell command rejected");
+    if let Ok(cmd) = &r {
+        check_options(&cmd.options, wrap);
+        match &cmd.program {
+            Program::Shell { shell, command, args: extra } => {
+                assert!(lit(shell.prog.as_os_str().as_bytes(), b"sh"), "C18: shell program is not the --shell value");
+                assert!(extra.is_empty(), "C18: extra shell arguments invented");
+                assert!(lit(command.as_bytes(), b"a b  c'd"), "C18: command words not joined verbatim by single spaces");
+            }
+            Program::Exec { .. } => assert!(false, "C18: shell command not wrapped in the shell"),
+        }
+    }
+    kani::cover!(r.is_ok(), "concrete three-word command built");
+    std::mem::forget(r);
+    std::mem::forget(args);
+}
+
 /// `--shell=""` is rejected (no command is built); one two-byte word, wrap mode symbolic.
 #[kani::proof]
 #[kani::stub(stdpanic::catch_unwind, crate::util::catch_unwind_stub)]
